@@ -953,8 +953,12 @@ func init() {
 					continue
 				}
 				// success returns: error operand nil, or forwarding parseIPv4's result
-				success := isNilConst(r.Results[1])
-				if ex, ok := r.Results[1].(*ssa.Extract); ok {
+				ei := errResultIndex(ph)
+				if ei < 0 || ei >= len(r.Results) {
+					continue
+				}
+				success := isNilConst(r.Results[ei])
+				if ex, ok := r.Results[ei].(*ssa.Extract); ok {
 					if c2, ok := ex.Tuple.(*ssa.Call); ok && c2.Common().StaticCallee() != nil && c2.Common().StaticCallee().Name() == "parseIPv4" {
 						success = true
 					}
